@@ -7,6 +7,8 @@
 //!                               observed: the part boxes, and per call `flipped`, the outer query box, the visited outer leaves
 //!                               with their inner query boxes and visited inner leaves, and the manifolds of a FRESH computation at that pose
 //!   cap3 pos12 a1 b1 r1 a2 b2 r2 pred manifold   3-D `contact_manifold_capsule_capsule` called directly, arbitrary axes
+//!   hfc2 <hf2 args, other shape = capsule>   2-D HeightField-vs-capsule history (`contact_manifolds_heightfield_shape`) with user-data
+//!                               tags; observed per call: the cells `map_elements_in_local_aabb` reports (id, a, b)
 //!   pfm3 kind a b pred nposes pose*   pose history of a pfm/pfm pair whose support features are EDGES (capsule / cylinder /
 //!                               cone / segment sides): one-shot reference ;; manifold after every call (oracle only)
 use super::*;
@@ -118,6 +120,51 @@ fn pfm3(a: &mut Args) -> String {
     format!("{};; {}", obs, out)
 }
 
+/// `hfc2`: same arguments as `hf2`; the other shape must be the capsule (`s2type = 1`)
+fn hfc2(a: &mut Args) -> String {
+    use crate::p2::query::{DefaultQueryDispatcher, PersistentQueryDispatcher};
+    use crate::p2::bounding_volume::BoundingVolume;
+    use crate::p2::shape::*;
+    let flipped = a.b();
+    let nh = a.u();
+    let hs: Vec<f64> = (0..nh).map(|_| a.f()).collect();
+    let scale = d2::v(a);
+    let mut hf = HeightField::new(d2::na::DVector::from_vec(hs), scale);
+    let nr = a.u();
+    for _ in 0..nr { let i = a.u(); if i < hf.num_cells() { hf.set_segment_removed(i, true); } }
+    let ty2 = a.u(); let q = d2::v(a);
+    if ty2 != 1 { return "unsupported".into(); }
+    let other = Capsule::new_y(q.x, q.y);
+    let pred = a.f();
+    let n = a.u();
+    let poses: Vec<_> = (0..n).map(|_| d2::iso(a)).collect();
+    let mut obs = format!("{} ", hf.num_cells());
+    for i in 0..hf.num_cells() {
+        match hf.segment_at(i) { Some(sg) => obs += &format!("1 {} {} ", d2::fp(&sg.a), d2::fp(&sg.b)), None => obs += "0 " }
+    }
+    let mut manifolds: Vec<M2> = Vec::new();
+    let mut ws = None;
+    let mut out = String::new();
+    for (k, p) in poses.iter().enumerate() {
+        // the cells the implementation must visit: those reported for the capsule's prediction-loosened box in the field's frame
+        let pos_in_hf = if flipped { p.inverse() } else { *p };
+        let bx = other.compute_aabb(&pos_in_hf).loosened(pred);
+        let mut vis: Vec<(u32, d2::Point<f64>, d2::Point<f64>)> = Vec::new();
+        hf.map_elements_in_local_aabb(&bx, &mut |i, sg| vis.push((i, sg.a, sg.b)));
+        obs += &format!("{} ", vis.len());
+        for (i, sa, sb) in &vis { obs += &format!("{} {} {} ", i, d2::fp(sa), d2::fp(sb)); }
+        let r = if flipped { DefaultQueryDispatcher.contact_manifolds(p, &other, &hf, pred, &mut manifolds, &mut ws) }
+                else { DefaultQueryDispatcher.contact_manifolds(p, &hf, &other, pred, &mut manifolds, &mut ws) };
+        if r.is_err() { return "unsupported".into(); }
+        out += &format!("{} ", manifolds.len());
+        for (i, m) in manifolds.iter_mut().enumerate() {
+            out += &format!("{} {} {} {} ", m.subshape1, m.subshape2, m.data, fman2(m));
+            m.data = (1000 * (k + 1) + i + 1) as u32;
+        }
+    }
+    format!("{};; {}", obs, out.trim_end())
+}
+
 pub fn exec(func: &str, a: &mut Args) -> String {
     match func {
         "css3" => { let a1 = d3::p(a); let b1 = d3::p(a); let a2 = d3::p(a); let b2 = d3::p(a);
@@ -129,6 +176,7 @@ pub fn exec(func: &str, a: &mut Args) -> String {
                 None => "none".into(),
                 Some((ca, cb)) => format!("some {} {}", fclip2(&ca), fclip2(&cb)) } }
         "cc3" => cc3(a),
+        "hfc2" => hfc2(a),
         "pfm3" => pfm3(a),
         "cap3" => { use crate::p3::shape::Capsule;
             let p = d3::iso(a);
@@ -356,6 +404,13 @@ pub fn gen(r: &mut Rng, thorough: bool) -> Vec<(String, String)> {
         if it % 3 == 0 { v.push(gen_css2(r, lat, (it / 6) % 4)); }
     }
     for it in 0..300 * k { v.push(gen_cc3(r, it % 2 == 0, 12)); }
+    for it in 0..160 * k {
+        // HeightField-vs-capsule histories of the hf2 family, replayed with tags and the model leg
+        let (_, args) = gen_hf2(r, it % 4 == 0, 16);
+        let t: Vec<&str> = args.split_whitespace().collect();
+        let nh: usize = t[1].parse().unwrap(); let nr: usize = t[4 + nh].parse().unwrap();
+        if t[5 + nh + nr] == "1" { v.push(("hfc2".into(), args)); }
+    }
     for it in 0..800 * k { v.push(gen_cap3(r, it % 2 == 0, match it % 8 { 0 | 1 | 2 | 3 => 0, 4 => 1, 5 | 6 => 2, _ => 3 })); }
     for it in 0..40 * k { for kind in 0..9 { v.push(gen_pfm3(r, it % 2 == 0, kind, 12)); } }
     v
